@@ -370,6 +370,11 @@ impl CommandLine {
         for sub_tokens in split_tokens_by_pipes(&tokens) {
             match Command::from_tokens(sub_tokens) {
                 Ok(c) => {
+                    if c.tokens.is_empty() {
+                        // every word was consumed as a redirection (`> f`,
+                        // `2>&1`, `echo a | > f`): nothing to run
+                        return Err(String::from("syntax error: empty command"));
+                    }
                     commands.push(c);
                 }
                 Err(e) => {
